@@ -443,6 +443,9 @@ func runRpm(r *hx.Run, rnd *hx.Rand, cfg hx.Config) error {
 		}
 	}
 	runBdbCorpus(r, cfg.Corpus)
+	if err := runRpmMulti(r, rnd, cfg); err != nil {
+		return err
+	}
 	// no database: nothing
 	if o := scanRpm([]ent{{path: "var/lib/rpm/other", data: []byte("x")}}); o.err || len(o.tuples) != 0 {
 		r.Fail("", "rpm: a layer without a database reports packages or fails")
@@ -520,4 +523,104 @@ func runBdbCorpus(r *hx.Run, dir string) {
 			r.Count("rpm:bdb:libdb-written:exact")
 		}
 	}
+}
+
+// runRpmMulti: several rpm databases in one layer, at arbitrary paths, of equal or different
+// kinds (a chroot or an installroot next to the system's own database): each is reported in
+// full under its own PackageDB.
+func runRpmMulti(r *hx.Run, rnd *hx.Rand, cfg hx.Config) error {
+	dirs := []string{"var/lib/rpm", "usr/lib/sysimage/rpm", "opt/chroot/var/lib/rpm", "mnt/sysroot/usr/lib/sysimage/rpm", "srv/installroot/var/lib/rpm", "a/b/c"}
+	for i := 0; i < cfg.N(25, 400) && !r.Stop(); i++ {
+		k := 2 + rnd.Intn(2)
+		perm := rnd.Intn(len(dirs))
+		var ents []ent
+		type one struct {
+			name string
+			want []rpmTuple
+			info []string
+		}
+		var dbs []one
+		kinds := ""
+		for j := 0; j < k; j++ {
+			dir := dirs[(perm+j*5)%len(dirs)]
+			dup := false
+			for _, d := range dbs {
+				dup = dup || strings.HasSuffix(d.name, ":"+dir)
+			}
+			if dup {
+				continue
+			}
+			db := genRpmDB(rnd, 1+rnd.Intn(6))
+			for x := range db {
+				db[x].p.desc = strings.Repeat("Some description. ", 80)
+			}
+			blobs := make([][]byte, len(db))
+			for x, g := range db {
+				blobs[x] = g.p.blob()
+			}
+			kind := rnd.Pick("sqlite", "ndb", "bdb")
+			kinds += kind + " "
+			order := make([]int, len(db))
+			for x := range order {
+				order[x] = x
+			}
+			switch kind {
+			case "sqlite":
+				b, err := rpmSqlite(cfg.OutDir, blobs)
+				if err != nil {
+					return err
+				}
+				ents = append(ents, ent{path: dir + "/rpmdb.sqlite", data: b})
+			case "ndb":
+				ents = append(ents, ent{path: dir + "/Packages.db", data: rpmNdb(blobs)})
+			case "bdb":
+				lay := bdbFreshLayout(rnd, len(blobs))
+				lay.pageSize = 1024
+				f, o, _ := rpmBdb(blobs, lay)
+				order = o
+				ents = append(ents, ent{path: dir + "/Packages", data: f})
+			}
+			d := one{name: kind + ":" + dir}
+			for _, x := range order {
+				d.info = append(d.info, db[x].p.opInfo())
+				if db[x].p.name != "gpg-pubkey" {
+					d.want = append(d.want, db[x].expected(d.name))
+				}
+			}
+			dbs = append(dbs, d)
+		}
+		got := scanRpm(ents)
+		r.Case(fmt.Sprintf("rpm-multi %d", i), true)
+		r.Count(fmt.Sprintf("rpm:multi:databases:%d", len(dbs)))
+		if got.err || got.panic || len(got.bad) > 0 {
+			r.Fail("", fmt.Sprintf("rpm.Scanner.Scan fails on a layer with %d databases (%s)", len(dbs), kinds))
+			continue
+		}
+		byDB := map[string][]rpmTuple{}
+		for _, t := range got.tuples {
+			byDB[t.db] = append(byDB[t.db], t)
+		}
+		for _, d := range dbs {
+			g := byDB[d.name]
+			delete(byDB, d.name)
+			r.Op("rpm "+strings.Join(d.info, " "), rpmProto(g), true)
+			same := len(g) == len(d.want)
+			for x := 0; same && x < len(g); x++ {
+				same = g[x] == d.want[x]
+			}
+			if !same {
+				var names []string
+				for _, o := range dbs {
+					names = append(names, o.name)
+				}
+				r.Fail("", fmt.Sprintf("rpm: a layer with the databases %v: %s holds %d packages, %d are reported: headers [%s]", names, d.name, len(d.want), len(g), strings.Join(d.info, " ")))
+			} else {
+				r.Count("rpm:multi:oracle:exact")
+			}
+		}
+		for n, ts := range byDB {
+			r.Fail("", fmt.Sprintf("rpm: %d packages reported for a database %s that is not in the layer", len(ts), n))
+		}
+	}
+	return nil
 }
